@@ -466,6 +466,24 @@ Section Main.
     fns a' = fns a2 ++ [d] -> installed ft (fns a') -> installed ft (fns a2) /\ installed ft [d].
   Proof. intros E I. unfold installed in *. rewrite E in I. apply Forall_app in I. exact I. Qed.
 
+  (* a branch body that can `return` is moved into a function of its own; calling it means running it *)
+  Lemma isolate_spec lines a bl a' :
+    wf nm a -> isolate nm lines a = (bl, a') ->
+    wf nm a' /\ ext nm a a' /\
+    (installed ft (fns a') -> forall x y, runs bl x y <-> runs lines x y).
+  Proof.
+    intros W H. unfold isolate in H. destruct (can_return lines).
+    - destruct (get_count IF_ELSE a) as [k0 a1] eqn:G. inversion H; subst; clear H.
+      destruct (reserve_add _ _ _ _ _ lines W IF_in G (wf_get_count nm _ _ _ _ W G) (ext_refl nm a1))
+        as (W' & X' & Ef).
+      change (add_fns [(priv_fn nm IF_ELSE k0, lines)] a1) with (add_fn (priv_fn nm IF_ELSE k0, lines) a1) in *.
+      split; [exact W'|]. split; [exact X'|]. intros I x y.
+      destruct (installed_split _ _ _ Ef I) as [_ If].
+      unfold call_func. rewrite runs_single. apply steps_call.
+      unfold installed in If. inversion If; subst. assumption.
+    - inversion H; subst. split; [exact W|]. split; [apply ext_refl|]. intros; reflexivity.
+  Qed.
+
   Lemma P_SCmd c : P_stmt (SCmd c).
   Proof.
     intros a lines a' W H. cbn in H. inversion H; subst; clear H.
@@ -573,24 +591,28 @@ Section Main.
       split; [exact W1|]. split; [exact X1|]. split; [constructor|]. split; [discriminate|].
       intros I (Kc & Kb & _). split; [|constructor]. cbn. constructor; [|constructor].
       split; [reflexivity|]. cbn [snd]. intros x y. apply (S1 I Kb).
-    - destruct (get_count IF_ELSE a1) as [k a2] eqn:G.
-      set (w := mkW c bl k) in *.
+    - destruct (isolate nm bl a1) as [bl' a1'] eqn:Iso.
+      destruct (isolate_spec _ _ _ _ W1 Iso) as (W1' & X1' & S1').
+      destruct (get_count IF_ELSE a1') as [k a2] eqn:G.
+      set (w := mkW c bl' k) in *.
       destruct (compile_branches nm he r (add_fn (wbr_fn nm w) a2)) as [[[ws' le'] a3]|] eqn:E3; [|discriminate].
       inversion H; subst; clear H.
       (* the branch function is stored under the number just taken: fresh *)
-      destruct (reserve_add _ _ _ _ _ (w_body w ++ [set_flag nm 1]) W1 IF_in G
-                            (wf_get_count nm _ _ _ _ W1 G) (ext_refl nm a2)) as (W2 & X2 & Ef).
+      destruct (reserve_add _ _ _ _ _ (w_body w ++ [set_flag nm 1]) W1' IF_in G
+                            (wf_get_count nm _ _ _ _ W1' G) (ext_refl nm a2)) as (W2 & X2 & Ef).
       change (add_fns [(priv_fn nm IF_ELSE k, w_body w ++ [set_flag nm 1])] a2)
         with (add_fn (wbr_fn nm w) a2) in *.
       destruct (Pr _ _ _ _ _ W2 E3) as (W3 & X3 & B3 & L3 & S3).
-      split; [exact W3|]. split; [eapply ext_trans; [exact X1|eapply ext_trans; eauto]|].
+      split; [exact W3|].
+      split; [eapply ext_trans; [exact X1|eapply ext_trans; [exact X1'|eapply ext_trans; eauto]]|].
       split.
       { constructor; [|exact B3]. apply (ext_in nm _ _ _ X3). rewrite Ef. apply in_or_app. right. left. reflexivity. }
       split; [exact L3|].
       intros I (Kc & Kb & Kr). destruct (S3 I Kr) as [F2 Kw]. split.
       + cbn [map app sem_branches]. constructor; [|exact F2]. split; [reflexivity|]. cbn [snd src_of w_body w].
-        intros x y. apply S1; [|exact Kb].
-        apply (ext_installed nm ft _ _ (ext_trans nm _ _ _ X2 X3) I).
+        pose proof (ext_installed nm ft _ _ (ext_trans nm _ _ _ X2 X3) I) as I1'.
+        intros x y. rewrite (S1' I1' x y). apply S1; [|exact Kb].
+        apply (ext_installed nm ft _ _ X1' I1').
       + constructor; [exact Kc|exact Kw].
   Qed.
 
